@@ -2251,13 +2251,29 @@ fn primary(input: Span) -> IResult<Span, Term> {
     ))(input)
 }
 
+/// The pattern of a binding `pattern = …`, tried at the start of every chain before the chain is read as
+/// plain terms. A string at the start of a chain is first read here as a string *pattern*, which has no
+/// interpolation holes: the text of a string *term* with a hole can be an invalid escape there
+/// (`"{(\\File)f = 1}"`). That is not an error of the source — what follows decides whether this is a
+/// binding at all — so a hard failure of the pattern is made recoverable and the chain is then read as
+/// terms, where a genuinely malformed string fails in the same way.
+fn binding_pattern(input: Span) -> IResult<Span, Match> {
+    match_pattern(input).map_err(|error| match error {
+        nom::Err::Failure(error) => nom::Err::Error(error),
+        other => other,
+    })
+}
+
 fn chain(input: Span) -> IResult<Span, Chain> {
     let start = input;
     let (rest, mut chain) = alt((
         // Match pattern: pattern = chain_inner
         map(
             pair(
-                terminated(spanned(match_pattern), tuple((ws1, char('='), ws1))),
+                terminated(
+                    spanned(binding_pattern),
+                    tuple((ws1, char('='), ws1)),
+                ),
                 chain_inner,
             ),
             |((bind_span, match_pattern), terms)| Chain {
